@@ -85,9 +85,6 @@ type Options struct {
 	WalRoot string
 	// GenesisTime: time of block 0; block h gets GenesisTime + h. Default DefaultGenesisTime.
 	GenesisTime uint64
-	// StateCache is the `cache` argument NewLinkApplication passes to NewKeyValueDBWithCache (128 in the
-	// repository; any value > 0 enables the undo log in flat mode). Only for experiments; default 128.
-	StateCache int
 }
 
 // DefaultMempoolConfig is config.DefaultMempoolConfig() with broadcasting off and a small broadcast queue.
@@ -176,9 +173,6 @@ func (o *Options) fill() {
 	}
 	if o.GenesisTime == 0 {
 		o.GenesisTime = DefaultGenesisTime
-	}
-	if o.StateCache == 0 {
-		o.StateCache = 128
 	}
 }
 
